@@ -189,10 +189,20 @@ class DiffXReader(object):
                     #
                     # Read the content and decode it using the current
                     # encoding (defined either on this section or in a parent).
+                    indent = options.get('indent')
+
+                    if (indent is not None and
+                        (not isinstance(indent, int) or indent < 0)):
+                        raise DiffXParseError(
+                            'Expected the indent option for section "%s" '
+                            'to be a non-negative integer, not "%s"'
+                            % (section_id, indent),
+                            linenum=linenum)
+
                     section['text'] = self._read_content(
                         length=length,
                         encoding=encoding,
-                        indent=options.get('indent'),
+                        indent=indent,
                         line_endings=options.get('line_endings'))
                 elif section_id in META_SECTIONS:
                     # This is a metadata section.
@@ -506,7 +516,10 @@ class DiffXReader(object):
             # or due to some error the indentation on some line may be
             # wrong. Be careful to strip only the spaces, up to the specified
             # indentation level.
-            indent_re = re.compile(br'^ {1,%d}' % indent)
+            #
+            # No line can be indented by more than the length of the
+            # content, so cap the value to keep the pattern compilable.
+            indent_re = re.compile(br'^ {1,%d}' % min(indent, len(content)))
             content = b''.join(
                 indent_re.sub(b'', _line)
                 for _line in lines
